@@ -254,6 +254,8 @@ pub fn run_many<'a, T>(
     pick: &mut dyn FnMut(usize) -> usize,
     deliver: &mut dyn FnMut(usize) -> usize,
     horizon: u64,
+    hold_frames: bool,
+    held: &mut u32,
 ) -> Result<Vec<Option<T>>, Stop> {
     let n = futs.len();
     let flags: Vec<Arc<Flag>> = (0..n).map(|_| Arc::new(Flag(AtomicBool::new(true)))).collect();
@@ -281,7 +283,13 @@ pub fn run_many<'a, T>(
         }
         let ready: Vec<usize> = (0..n).filter(|i| !done[*i] && flags[*i].0.load(Ordering::SeqCst)).collect();
         // choice: poll a ready task or deliver an in-flight frame
-        let options = ready.len() + usize::from(!in_flight.is_empty());
+        // with `hold_frames` a further option: the frames in flight are held longer than the PDU
+        // timeout (frames delivered before this choice are not affected)
+        let can_hold = hold_frames && !in_flight.is_empty();
+        let options = ready.len() + usize::from(!in_flight.is_empty()) + usize::from(can_hold);
+        if std::env::var("VX_NET_DEBUG").is_ok() {
+            eprintln!("step {} ready {:?} in_flight {} timers {} now {}", steps, ready, in_flight.len(), clock::pending_timers(), clock::now());
+        }
         if options == 0 {
             if clock::fire_next().is_none() {
                 return Err(Stop::Deadlock);
@@ -303,6 +311,10 @@ pub fn run_many<'a, T>(
                 Ok(Poll::Pending) => {}
                 Err(p) => return Err(Stop::Panic(crate::e1::panic_msg(&p))),
             }
+        } else if can_hold && c == options - 1 {
+            // every frame still in flight is now later than its sender is willing to wait
+            *held += 1;
+            clock::advance_by(timeouts().pdu.as_micros() as u64 + 1);
         } else {
             let k = deliver(in_flight.len());
             let a = in_flight.remove(k);
